@@ -59,6 +59,7 @@ func Bases(quick bool) []*prog.Case {
 	cases = append(cases, famFlow(true)...)
 	cases = append(cases, famEnum(true)...)
 	cases = append(cases, famByValue(true)...)
+	cases = append(cases, famLoops(true)...)
 	if quick {
 		var thin []*prog.Case
 		nflow := 0
